@@ -142,6 +142,10 @@ def touches(impl, typ, fns):
     for f in fns:
         b = strip_comments(fn_body(impl, f))
         direct[f] = set("%s.%s" % (a, b_) for a, b_ in re.findall(MUT, b))
+        # an index replaced wholesale is a mutation too (`self.path_set = ..`, `mem::take(&mut self.contents)`)
+        direct[f] |= set("%s.assign" % a for a in re.findall(r"\bself\.(glyphs|contents|path_set|layers)\s*=[^=]", b))
+        direct[f] |= set("%s.assign" % a for a in
+                         re.findall(r"mem::(?:take|replace|swap)\(\s*&mut\s+self\.(glyphs|contents|path_set|layers)", b))
         calls[f] = set(c for c in CALLS[typ] if re.search(r"\bself\." + c + r"\(", b))
     # closure over calls to other methods of the same type
     changed = True
